@@ -467,6 +467,7 @@ theorem attrBody_pinv {two : Bool} {buf : Bytes} {ps : List WItem} {s : AState} 
     cases hcan : canonicalFlags w.code with
     | some expected =>
       simp only
+      rw [attrKnownW_eq]
       refine ⟨(fun e h => by cases h), (fun s' h => ?_)⟩
       injection h with h; subst h
       have hcw : conflictW w = flagsConflict w.flags expected := by simp [conflictW, hcan]
